@@ -135,6 +135,8 @@ def alphabet():
     # a negative zero cannot be written (the literal -0 evaluates to +0): it only comes out of arithmetic; it equals every zero (seeded change C09_d)
     A += [V('(0 * -1)', '(VNum 0 0)', 'num'), V('(0.00 / -5)', '(VNum 0 0)', 'num')]
     A += [st(s) for s in ['', 'a', 'ab', 'b', 'B', '1', '\u00e9', '\ufffd', '\U0001F600']]
+    # pairs that share two of the three components (seeded change C09_h: date equality compared the month with itself)
+    A += [date(2021, 2, 1), date(2022, 1, 1), date(2020, 2, 28)]
     A += [date(2021, 1, 1), date(2021, 1, 2), date(2020, 2, 29), date(2020, 12, 31), date(-2021, 1, 1),
           date(999999999, 1, 1), date(999999999, 1, 2), date(-999999999, 12, 31)]
     A += [time(10, 0, 0, 0), time(11, 0, 0, 3600), time(10, 0, 0, 3600), time(10, 0, 0, 0, half=True), time(23, 59, 59, -5 * 3600)]
